@@ -61,6 +61,13 @@ func genCluster(prop string) func(rng *simkit.Rand, tier string, idx int) *simki
 			}
 			c.Script = append(c.Script, op)
 		}
+		if prop == "C16" && rng.Intn(3) == 0 {
+			// a client that has connected but not spoken yet, then the node stops
+			a := rng.Intn(1 << 16)
+			m := []simkit.Op{{K: "slowclient", A: a, B: rng.Intn(3)}, {K: "shutdown", A: a}}
+			at := rng.Intn(len(c.Script) + 1)
+			c.Script = append(c.Script[:at:at], append(m, c.Script[at:]...)...)
+		}
 		return c
 	}
 }
@@ -256,6 +263,14 @@ func (w *cluster3) stopNode(n *node, graceful, reset bool) {
 		n.stopped = true
 		run.Logf("%s graceful shutdown took %v", n.id, time.Since(t0))
 		run.Probe("node_shutdown")
+		synctest.Wait()
+		if own := n.srv.ClusterState().LocalNode().Endpoints; len(own) != 0 {
+			rule := "C18.withdraw"
+			if w.prop == "C16" {
+				rule = "C16.while"
+			}
+			run.Fail(rule, "registered-after-server-shutdown", "%s has shut down but its upstream connections are still registered: [%s]", n.id, epString(own))
+		}
 	} else {
 		run.Logf("%s killed (reset=%v)", n.id, reset)
 		n.alive, n.killed = false, true
